@@ -218,3 +218,187 @@ Contract(COMPOSITE, 'struct._decode_impl', ['C02', 'C06'], sdec_setup, sdec_post
          loops={0: LoopAnn(sdec_inv, index='k', unfold=sdec_unfold)},
          notes=['requires the start cursor aligned to A(cls) (call-site obligation of every caller)',
                 'field decoders by contract: consume len(enc(field)) bytes or raise ProphyError'])
+
+
+# ------------------------------------------------------------------ descriptor.decode_optional
+
+class OpaqueType(Sym):
+    def __init__(self, tag):
+        self.tag = tag
+
+
+def decopt_setup(vm, module, env):
+    type_ = vm.fresh_ref('type_', None)
+    t = type_.t
+    vm.assume(z3.And(_in(sel(vm, '_OPTIONAL_ALIGNMENT', t), (4, 8)), sel(vm, '_SIZE', t) >= 0,
+                     sel(vm, '_OPTIONAL_SIZE', t) == sel(vm, '_OPTIONAL_ALIGNMENT', t) + sel(vm, '_SIZE', t)))
+    parent = vm.fresh_ref('parent', None)
+    name = SStr(vm.contract.str_const('<name>'))
+    data = SBytes(vm.fresh('data', ByteSeq))
+    pos = vm.fresh('pos')
+    vm.assume(pos >= 0)
+    e = SStr(vm.contract.str_const('<endianness>'))
+    hints = LenHints()
+    st = {'args': [parent, name, type_, data, SInt(pos), e, hints], 'type': type_, 'parent': parent, 'name': name, 'data': data,
+          'pos': pos, 'e': e, 'hints': hints, 'FLAG': vm.fresh('flag'), 'BASECONS': vm.fresh('basecons'),
+          'ISCOMP': vm.fresh('iscomposite', z3.BoolSort()), 'stores': [], 'closure_env': {}}
+    vm.assume(st['BASECONS'] >= 0)
+    vm.state = st
+    return st
+
+
+class LenHints(Sym):
+    """the len_hints dict threaded through the field decoders (opaque here)"""
+
+
+def decopt_getattr(vm, obj, attr):
+    st = vm.state
+    if isinstance(obj, SRef) and obj.t.eq(st['type'].t):
+        if attr == '_optional_type':
+            return OpaqueType('u32')
+        if attr == '__bases__':
+            return (OpaqueType('base'),)
+        if attr == '_decode':
+            return OpaqueFn(obj, '_decode')
+    if isinstance(obj, OpaqueType) and attr == '_decode':
+        return OpaqueFn(obj, '_decode')
+    return NotImplemented
+
+
+def decopt_issubclass(vm, x, c):
+    if isinstance(x, OpaqueType) and x.tag == 'base':
+        return SBool(vm.state['ISCOMP'])
+    return NotImplemented
+
+
+def decopt_call(vm, fn, args, kwargs, node):
+    st = vm.state
+    if isinstance(fn, OpaqueFn) and fn.attr == '_decode':
+        if isinstance(fn.owner, OpaqueType):         # flag: u32._decode(data, pos, e)
+            vm.oblige('call.flag decode:(data, pos, endianness)', z3.And(
+                vm.as_bytes(args[0]) == st['data'].t, vm.as_int(args[1]) == st['pos'], args[2].t == st['e'].t), 'call', vm.cur_line)
+            if vm.choose(2) == 1:
+                raise PyRaise(PROPHY_ERROR, ('too few bytes',))
+            return (SInt(st['FLAG']), 4)
+        # base decoder: type_._decode(parent, name, sub_type, data, pos + A_opt, e, len_hints)
+        oa = sel(vm, '_OPTIONAL_ALIGNMENT', st['type'].t)
+        vm.oblige('call.base decode:(parent, name, base type, data, pos + optional alignment, endianness, len_hints)', z3.And(
+            args[0].t == st['parent'].t, args[1].t == st['name'].t, isinstance(args[2], OpaqueType) and args[2].tag == 'base',
+            vm.as_bytes(args[3]) == st['data'].t, vm.as_int(args[4]) == st['pos'] + oa, args[5].t == st['e'].t,
+            args[6] is st['hints']), 'call', vm.cur_line)
+        st['stores'].append(('basedecode',))
+        if vm.choose(2) == 1:
+            raise PyRaise(PROPHY_ERROR, ('...',))
+        return SInt(st['BASECONS'])
+    return NotImplemented
+
+
+def decopt_setattr_dyn(vm, obj, name, val):
+    st = vm.state
+    ok = isinstance(obj, SRef) and obj.t.eq(st['parent'].t) and name.t.eq(st['name'].t)
+    vm.oblige('call.setattr:(parent, name)', ok, 'call', vm.cur_line)
+    st['stores'].append(('set', val))
+    return None
+
+
+def decopt_post(vm, st, result):
+    t = st['type'].t
+    oa = sel(vm, '_OPTIONAL_ALIGNMENT', t)
+    r = vm.as_int(result)
+    stores = st['stores']
+    present = st['FLAG'] != 0
+    seq_present_comp = stores == [('set', True), ('basedecode',)]
+    seq_present_scal = stores == [('basedecode',)]
+    seq_absent = stores == [('set', None)]
+    return [('present: consumed == A_opt + base', z3.Implies(present, r == oa + st['BASECONS'])),
+            ('absent: consumed == optional size', z3.Implies(z3.Not(present), r == sel(vm, '_OPTIONAL_SIZE', t))),
+            ('present composite: marked present, then decoded', z3.Implies(z3.And(present, st['ISCOMP']), seq_present_comp)),
+            ('present scalar: only the base decoder stores the value', z3.Implies(z3.And(present, z3.Not(st['ISCOMP'])), seq_present_scal)),
+            ('absent: field set to None', z3.Implies(z3.Not(present), seq_absent))]
+
+
+Contract(DESCRIPTOR, 'decode_optional', ['C02', 'C06'], decopt_setup, decopt_post, shapes=SHAPES, raises=only_prophy_error,
+         hooks={'getattr': decopt_getattr, 'call': decopt_call, 'issubclass': decopt_issubclass, 'setattr_dyn': decopt_setattr_dyn},
+         modifies=[])
+
+
+# ------------------------------------------------------------------ union._decode_impl / _get_discriminated_field
+
+def udec_setup(vm, module, env):
+    cls = env.get('union')
+    self = vm.fresh_ref('self', cls)
+    s = self.t
+    fields = new_fields(vm)
+    vm.path.objattrs[(str(s), '_descriptor')] = fields
+    vm.assume(z3.And(_in(sel(vm, '_ALIGNMENT', s), (4, 8)), sel(vm, '_SIZE', s) >= sel(vm, '_ALIGNMENT', s)))
+    data = SBytes(vm.fresh('data', ByteSeq))
+    pos = vm.fresh('pos')
+    vm.assume(pos >= 0)
+    e = SStr(vm.contract.str_const('<endianness>'))
+    terminal = SBool(vm.fresh('terminal', z3.BoolSort()))
+    st = {'args': [self, data, SInt(pos), e, terminal], 'self': self, 'fields': fields, 'data': data, 'pos': pos, 'e': e,
+          'terminal': terminal, 'DISC': vm.fresh('disc'), 'called': [], 'closure_env': {}}
+    vm.state = st
+    return st
+
+
+def udec_getattr(vm, obj, attr):
+    st = vm.state
+    if isinstance(obj, SRef) and obj.t.eq(st['self'].t) and attr == '_discriminator_type':
+        return OpaqueType('u32')
+    if isinstance(obj, OpaqueType) and attr == '_decode':
+        return OpaqueFn(obj, '_decode')
+    if isinstance(obj, SRef) and attr == '__class__' and isinstance(obj.cls, ClassInfo):
+        return obj.cls
+    return NotImplemented
+
+
+def udec_call(vm, fn, args, kwargs, node):
+    st = vm.state
+    if isinstance(fn, OpaqueFn) and fn.attr == '_decode' and isinstance(fn.owner, OpaqueType):
+        vm.oblige('call.discriminator decode:(data, pos, endianness)', z3.And(
+            vm.as_bytes(args[0]) == st['data'].t, vm.as_int(args[1]) == st['pos'], args[2].t == st['e'].t), 'call', vm.cur_line)
+        if vm.choose(2) == 1:
+            raise PyRaise(PROPHY_ERROR, ('too few bytes',))
+        return (SInt(st['DISC']), 4)
+    if isinstance(fn, OpaqueFn) and fn.attr == 'decode_fcn':
+        field = fn.owner
+        A = sel(vm, '_ALIGNMENT', st['self'].t)
+        vm.oblige('call.decode_fcn:(self, name, type, data, pos + A(union), endianness, fresh hints)', z3.And(
+            args[0].t == st['self'].t, args[1].t == sel(vm, 'name', field.t), args[2].t == sel(vm, 'type', field.t),
+            vm.as_bytes(args[3]) == st['data'].t, vm.as_int(args[4]) == st['pos'] + A, args[5].t == st['e'].t,
+            isinstance(args[6], dict) and not args[6]), 'call', vm.cur_line)
+        st['called'].append(field)
+        if vm.choose(2) == 1:
+            raise PyRaise(PROPHY_ERROR, ('...',))
+        return SInt(vm.fresh('armcons'))
+    return NotImplemented
+
+
+def udec_loop_inv(vm, env, k):
+    """_get_discriminated_field: no earlier arm has the decoded discriminator"""
+    st = vm.state
+    f = st['fields'].fn
+    j = z3.Int('j')
+    return [('no earlier arm matches', z3.ForAll([j], z3.Implies(z3.And(0 <= j, j < k), sel(vm, 'discriminator', f(j)) != st['DISC']),
+                                               patterns=[f(j)]))]
+
+
+def udec_post(vm, st, result):
+    s = st['self'].t
+    f, n = st['fields'].fn, st['fields'].length
+    j = z3.Int('j')
+    d = z3.Select(vm.heap_array('_discriminated'), s)
+    avail = z3.Length(st['data'].t) - st['pos']
+    called = st['called']
+    return [('consumed == S(union)', vm.as_int(result) == sel(vm, '_SIZE', s)),
+            ('enough bytes for the whole slot', avail >= sel(vm, '_SIZE', s)),
+            ('terminal => nothing left', z3.Implies(st['terminal'].t, avail == sel(vm, '_SIZE', s))),
+            ('discriminated arm has the decoded discriminator', sel(vm, 'discriminator', d) == st['DISC']),
+            ('it is the first such arm of the descriptor', z3.Exists([j], z3.And(0 <= j, j < n, f(j) == d))),
+            ('exactly the discriminated arm was decoded', len(called) == 1 and called[0].t == d)]
+
+
+Contract(COMPOSITE, 'union._decode_impl', ['C02', 'C06'], udec_setup, udec_post, shapes=SHAPES, raises=only_prophy_error,
+         hooks={'getattr': udec_getattr, 'call': udec_call}, modifies=['_discriminated'],
+         loops={('union._get_discriminated_field', 0): LoopAnn(udec_loop_inv, index='k')})
